@@ -537,6 +537,17 @@ fn gen_c16(ctx: &mut Ctx) {
         let ws: Vec<String> = (0..rng.below(8)).map(|_| if rng.chance(1, 4) { "I".to_string() } else { format!("A{}", rng.below(6)) }).collect();
         sb_case(ctx, m, tape, &rs, &ws, "fragmented");
     }
+    // the reply's text followed by every kind of line ending and stray byte, then another frame
+    for reply in ["RS.3.PLD", "AO.3.RPX"] {
+        let mut text = enc_msg(reply);
+        text.truncate(text.len() - 2);
+        for term in line_endings() {
+            let mut tape = text.clone();
+            tape.extend_from_slice(&term);
+            tape.extend(enc_msg("RS.3.UNC"));
+            sb_case(ctx, "QS.3", &tape, &[], &[], "line-endings");
+        }
+    }
     // the reply line is byte-identical to the request just written (an echo), followed by a genuine reply
     for m in [format!("HE.{}", 3), format!("QS.{}", 0xFFFFu16), format!("RO.{}.RPX", 3), format!("RO.{}.FRS", 0x100)] {
         let mut tape = enc_msg(&m);
